@@ -196,7 +196,22 @@ def main(argv=None) -> int:
     a = ap.parse_args(argv)
     if getattr(a, "tier", None) is None and a.cmd != "check":
         a.tier = "quick"
-    return a.fn(a)
+    # every scratch file of this command (and of the workers and sub-commands it starts) lives below one
+    # directory that is removed when the command ends, whatever happens to the workers
+    import shutil
+    import tempfile
+    outer = os.environ.get("VSIM_TMP_ROOT")
+    root = None
+    if not outer:
+        root = tempfile.mkdtemp(prefix="vsim-cmd-")
+        os.environ["VSIM_TMP_ROOT"] = root
+        os.environ["TMPDIR"] = root
+        tempfile.tempdir = root
+    try:
+        return a.fn(a)
+    finally:
+        if root is not None:
+            shutil.rmtree(root, ignore_errors=True)
 
 
 if __name__ == "__main__":
